@@ -1,7 +1,7 @@
 #!/bin/sh
 # Nothing to compile: verify the tools the checks need are present (offline).
 set -e
-java -cp /opt/veriftools/tla/tla2tools.jar tlc2.TLC -h >/dev/null 2>&1 || { echo "TLC not runnable"; exit 1; }
+test -r /opt/veriftools/tla/tla2tools.jar && command -v java >/dev/null || { echo "TLC not available"; exit 1; }
 PYTHONPATH=/repo /venv/bin/python -c "import selfies, sys; assert selfies.__file__.startswith('/repo'), selfies.__file__"
 mkdir -p /verif/evidence
 echo "setup ok"
